@@ -9,6 +9,7 @@ import JanetModel.Parse.Model
 import JanetModel.PP.Jdn
 import JanetModel.Parse.Sm
 import JanetModel.Parse.Cap
+import JanetModel.Parse.Phys
 open Driver JanetModel.Parse JanetModel.PP JanetModel.Gen.Parse
 
 def hexOfB (bs : List B) : String := hexOfBytes (bs.map (·.toNat))
@@ -40,9 +41,13 @@ where
 def sanitize (s : String) : String :=
   String.ofList (s.toList.map (fun ch => if ch.toNat > 32 && ch.toNat < 127 && ch != '|' then ch else '_'))
 
+/- `p` / `caps` / `sgen` / `fault` are the state of the PHYSICAL machine (`Parse/Phys.lean`): consume, eof, produce, flush and error
+   run on it (`DRun.mp` / `DRun.setM`); clone, `parser/insert` and `parser/state` use the logical model + capacity overlay. -/
 structure DRun where
   p : Parser
   caps : Caps
+  sgen : Nat
+  fault : Bool
   bytes : Array B
   pos : Nat
   eofoff : Nat
@@ -53,6 +58,9 @@ structure DRun where
   numlog : Array String
 
 abbrev Scan := List B → Option String
+
+def DRun.mp (r : DRun) : MP := MP.ofParts r.p r.caps r.sgen r.fault
+def DRun.setM (r : DRun) (m : MP) : DRun := { r with p := m.p, caps := m.k, sgen := m.sgen, fault := m.fault }
 
 def DRun.label (r : DRun) : Nat := r.pos + r.eofoff
 
@@ -66,14 +74,14 @@ def smStr (n : Nat) : String := if n == smNone then "-1" else toString n
 
 def produce1 (r : DRun) (wrapped : Bool) : DRun :=
   if wrapped then
-    match produceWrapped r.p with
-    | (some (.tuple _ l c [v]), p) =>
-      { r with p := p, tr := r.tr.push s!"@wrap#{r.nvalues}={smStr l}:{smStr c}", ev := r.ev.push ("v:" ++ canon true v), nvalues := r.nvalues + 1 }
-    | (_, p) => { r with p := p, ev := r.ev.push "v:BADWRAP" }
+    match produceWrappedM r.mp with
+    | (some (.tuple _ l c [v]), m) =>
+      { r.setM m with tr := r.tr.push s!"@wrap#{r.nvalues}={smStr l}:{smStr c}", ev := r.ev.push ("v:" ++ canon true v), nvalues := r.nvalues + 1 }
+    | (_, m) => { r.setM m with ev := r.ev.push "v:BADWRAP" }
   else
-    match produce r.p with
-    | (some v, p) => { r with p := p, ev := r.ev.push ("v:" ++ canon true v), nvalues := r.nvalues + 1 }
-    | (none, p) => { r with p := p, ev := r.ev.push ("v:nil"), nvalues := r.nvalues + 1 }
+    match produceM r.mp with
+    | (some v, m) => { r.setM m with ev := r.ev.push ("v:" ++ canon true v), nvalues := r.nvalues + 1 }
+    | (none, m) => { r.setM m with ev := r.ev.push ("v:nil"), nvalues := r.nvalues + 1 }
 
 def drainD (r : DRun) : DRun := Id.run do
   let mut r := r
@@ -89,11 +97,11 @@ def handleErrorD (r : DRun) : DRun :=
   let r := trWhere r "ew"
   let r := if r.rawerr then r else drainD r
   let r := trStatus r "es2"
-  let (e, p) := takeError r.p
-  let r := { r with p := p, ev := r.ev.push ("e:" ++ (match e with | some m => sanitize m | none => "NOT-A-STRING") ++ s!"@{r.label}") }
+  let (e, m) := takeErrorM r.mp
+  let r := { r.setM m with ev := r.ev.push ("e:" ++ (match e with | some m => sanitize m | none => "NOT-A-STRING") ++ s!"@{r.label}") }
   let r := trStatus r "es3"
-  let (e2, p2) := takeError r.p
-  { r with p := p2, ev := if e2.isSome then r.ev.push "e:SECOND-ERROR" else r.ev }
+  let (e2, m2) := takeErrorM r.mp
+  { r.setM m2 with ev := if e2.isSome then r.ev.push "e:SECOND-ERROR" else r.ev }
 
 def trPanic (r : DRun) (key msg : String) : DRun :=
   { r with tr := r.tr.push s!"@{r.label}:{key}=panic:{sanitize msg}" }
@@ -114,7 +122,7 @@ def logScan (scan : Scan) (r : DRun) (c : B) : DRun :=
 /-- one byte through janet_parser_consume (no dead check here) + status check + error protocol -/
 def byteD (scan : Scan) (r : DRun) (c : B) : DRun :=
   let r := logScan scan r c
-  let r := { r with p := consumeRaw scan r.p c, caps := consumeRawK scan r.caps r.p c, pos := r.pos + 1 }
+  let r := { r.setM (consumeRawM scan r.mp c) with pos := r.pos + 1 }
   if (status r.p) == .error then handleErrorD r else r
 
 def opFeed (scan : Scan) (r : DRun) (n : Nat) (key : String) : DRun := Id.run do
@@ -150,14 +158,14 @@ def trInternals (r : DRun) : DRun :=
     let argn : Int := if i == 0 then (s.argn : Int) - (p.pending : Int) else (s.argn : Int)
     s!":{consName s.consumer},{lowerHexNat s.flags},{s.counter},{argn},{s.line},{s.column}"))
   { r with tr := (r.tr.push (s!"@{r.label}:i={p.line}:{p.column}:{p.lookback}:{p.flag}:{n}:{p.buf.length}:" ++ hexOfB p.buf ++ per ++
-      s!":a{(p.args.length : Int) - (p.pending : Int)}")).push s!"cap:{r.caps.buf},{r.caps.states},{r.caps.args}" }
+      s!":a{(p.args.length : Int) - (p.pending : Int)}" ++ (if r.fault then ":PHYS-FAULT" else ""))).push s!"cap:{r.caps.buf},{r.caps.states},{r.caps.args}" }
 
 def opEof (scan : Scan) (r : DRun) : DRun :=
   match checkDead r.p with
   | some msg => trPanic r "E" msg
   | none =>
     let r := logScan scan r 10
-    let r := { r with p := eof scan r.p, caps := eofK scan r.caps r.p, eofoff := 1000000 }
+    let r := { r.setM (eofM scan r.mp) with eofoff := 1000000 }
     let r := if status r.p == .error then handleErrorD r else r
     trStatus r "E"
 
@@ -168,7 +176,7 @@ def runOp (scan : Scan) (r : DRun) (op : Char) (n : Nat) : DRun :=
   | 'u' => opFeed scan r n "c"
   | 'b' => opFeed scan r n "b"
   | 'j' => opFeed scan r n "j"
-  | 'k' => { r with p := clone r.p, caps := cloneK r.p }
+  | 'k' => { r with p := clone r.p, caps := cloneK r.p, sgen := r.sgen + 1 }
   | 'K' => r
   | 's' => trStatus r "s"
   | 'w' => trWhere r "w"
@@ -179,10 +187,10 @@ def runOp (scan : Scan) (r : DRun) (op : Char) (n : Nat) : DRun :=
   | 'P' => if hasMore r.p then produce1 r true else { r with tr := r.tr.push "P=none" }
   | 'D' => drainD r
   | 'e' =>
-    let (e, p) := takeError r.p
-    { r with p := p, tr := r.tr.push (s!"@{r.label}:e=" ++ (if e.isSome then "NOTNIL" else "nil")) }
-  | 'f' => let r := drainD r; { r with p := flush r.p }
-  | 'F' => { r with p := flush r.p }
+    let (e, m) := takeErrorM r.mp
+    { r.setM m with tr := r.tr.push (s!"@{r.label}:e=" ++ (if e.isSome then "NOTNIL" else "nil")) }
+  | 'f' => let r := drainD r; r.setM (flushM r.mp)
+  | 'F' => r.setM (flushM r.mp)
   | 'R' => { r with rawerr := true }
   | 'I' =>
     let (v, vs) : Value × List B := match n % 5 with
@@ -229,7 +237,7 @@ def runCase (hex sched tab : String) : String :=
   | none => "bad-op"
   | some bs =>
     let scan := mkScan (parseTable tab)
-    let r0 : DRun := { p := Parser.init, caps := Caps.init, bytes := (bs.map (·.toUInt8)).toArray, pos := 0, eofoff := 0, rawerr := false, nvalues := 0, ev := #[], tr := #[], numlog := #[] }
+    let r0 : DRun := { p := MP.init.p, caps := MP.init.k, sgen := MP.init.sgen, fault := MP.init.fault, bytes := (bs.map (·.toUInt8)).toArray, pos := 0, eofoff := 0, rawerr := false, nvalues := 0, ev := #[], tr := #[], numlog := #[] }
     let ops := (sched.splitOn ",").filter (· ≠ "")
     let r := ops.foldl (fun r o =>
       match o.toList with
